@@ -73,6 +73,7 @@ class Engine:
     def __init__(self, N=32, max_steps=400000, max_frames=80, loop_bound=None, timeout_ms=60000):
         self.funcs = {}        # full name -> [Func]   (full name = crate::path)
         self.crate_of = {}
+        self.local_roots = {}
         self.crates = []
         self.src = SrcIndex()
         self.N = N
@@ -110,6 +111,10 @@ class Engine:
             self.funcs.setdefault(full, []).extend(fl)
             for f in fl:
                 f.crate = crate
+        roots = self.local_roots.setdefault(crate, set())
+        for name in fs:
+            if not name.startswith('<') and '::' in name:
+                roots.add(name.split('::')[0])
         if doc_path:
             self.src.load(doc_path)
         # index impl methods
@@ -224,6 +229,8 @@ class Engine:
                 return v.caps[p[1]]
             if isinstance(v, Obj):
                 return self.obj_field(st, v, p[1])
+            if isinstance(v, Str):
+                return v        # Box<str> / Unique / NonNull / String wrappers around a str are transparent
             if v is None:
                 raise ValueError('read of uninitialised place')
             raise ValueError(f'field {p[1]} of {v!r}')
@@ -374,7 +381,7 @@ class Engine:
             f = cands
             if f.kind in ('const', 'static'):
                 return self.eval_const_fn(f, st)
-            return FnItem(s)
+            return FnItem(s, cur)
         name = strip_generics(s)
         # unit struct / variant / fn item from elsewhere
         if '::' in name:
@@ -384,7 +391,7 @@ class Engine:
                 return Adt(self.canon_ty(ty), var, [])
         if self.lookup_struct(name) is not None:
             return Adt(self.canon_ty(name), None, [])
-        return FnItem(s)
+        return FnItem(s, cur)
 
     def eval_const_fn(self, f, st=None):
         key = id(f)
@@ -832,11 +839,18 @@ class Engine:
         fr = st.frames[-1]
         f = fr.fn
         stmts, term = f.blocks[fr.bb]
-        if fr.ip < len(stmts):
-            s = stmts[fr.ip]; fr.ip += 1
-            self.exec_stmt(st, fr, s)
-            return None
-        return self.exec_term(st, fr, term, base_depth)
+        try:
+            if fr.ip < len(stmts):
+                s = stmts[fr.ip]; fr.ip += 1
+                self.exec_stmt(st, fr, s)
+                return None
+            return self.exec_term(st, fr, term, base_depth)
+        except (ValueError, KeyError, AttributeError, IndexError, AssertionError, TypeError) as e:
+            if getattr(e, '_mirsym_ctx', False):
+                raise
+            cur = stmts[fr.ip - 1] if 0 < fr.ip <= len(stmts) else term
+            err = Inconclusive(f'engine cannot execute `{cur[:200]}` in {f.name} bb{fr.bb}: {type(e).__name__}: {e}')
+            raise err from e
 
     def exec_stmt(self, st, fr, s):
         if s.startswith(NOOP_STMTS):
@@ -977,22 +991,40 @@ class Engine:
     def resolve(self, callee, cur_crate, args, st):
         """Find the MIR body for a callee path. Returns Func or None."""
         name = strip_generics(callee)
-        cands = self._resolve_names(name, cur_crate)
+        cands = self._resolve_names(name, cur_crate, callee)
         if cands is None:
             return None
         if len(cands) == 1:
             return cands[0]
         return self._pick_overload(callee, cands, args, st)
 
-    def _resolve_names(self, name, cur_crate):
-        key = ('R', name, cur_crate)
+    def _resolve_names(self, name, cur_crate, raw=None):
+        key = ('R', name, cur_crate, raw)
         if key in self.parse_cache:
             return self.parse_cache[key]
-        r = self._resolve_names_uncached(name, cur_crate)
+        r = self._resolve_names_uncached(name, cur_crate, raw)
         self.parse_cache[key] = r
         return r
 
-    def _resolve_names_uncached(self, name, cur_crate):
+    def _filter_impls(self, lst, raw):
+        """narrow impl candidates by the callee's full self type and trait arguments (`<X<A> as Trait<B>>::m`)"""
+        if not raw or not raw.strip().startswith('<') or '>::' not in raw:
+            return lst
+        inner = raw.strip()[1:raw.strip().rindex('>::')]
+        k = _find_top_as(inner)
+        if k < 0:
+            return lst
+        xs, tr = cmp_ty(inner[:k]), cmp_ty(inner[k + 4:])
+        exact = [(full, rec) for full, rec in lst if cmp_ty(rec['trait_full'] or '') == tr and cmp_ty(rec['for_full']) == xs]
+        if exact:
+            return exact
+        # impls generic in the trait argument or self type (`impl<T> From<T> for X`) cannot be compared textually
+        loose = [(full, rec) for full, rec in lst
+                 if (is_generic_ty(rec['trait_full'] or '') or is_generic_ty(rec['for_full']))
+                 and ty_unifies(cmp_ty(rec['trait_full'] or ''), tr) and ty_unifies(cmp_ty(rec['for_full']), xs)]
+        return loose
+
+    def _resolve_names_uncached(self, name, cur_crate, raw=None):
         # 1. direct
         if cur_crate and (cur_crate + '::' + name) in self.funcs:
             return self.funcs[cur_crate + '::' + name]
@@ -1014,8 +1046,10 @@ class Engine:
             else:
                 x, tr = inner, None
             xl = type_last(x); trl = tr.split('::')[-1] if tr else None
+            if tr and self.is_foreign(x, cur_crate) and self.is_foreign(tr, cur_crate):
+                return None          # orphan rule: no local impl of a foreign trait for a foreign type
             out = []
-            for full, rec in self.impl_methods.get((xl, trl, item), []):
+            for full, rec in self._filter_impls(self.impl_methods.get((xl, trl, item), []), raw):
                 for f in self.funcs[full]:
                     if f not in out: out.append(f)
             if trl is None and not out:
@@ -1046,6 +1080,19 @@ class Engine:
             if out:
                 return out
         return None
+
+    def is_foreign(self, path, cur_crate):
+        p = path.strip().lstrip('&')
+        if p.startswith('mut '): p = p[4:]
+        if p.startswith(('[', '(', '*', 'dyn ', 'fn(')):
+            return True
+        root = p.split('::')[0].split('<')[0]
+        if '::' not in p:
+            # bare name: primitive (foreign) or a generic parameter (unknown -> not foreign)
+            return root in INT_TYPES or root in ('str', 'bool', 'char', 'f32', 'f64')
+        if root in self.crates:
+            return False
+        return root not in self.local_roots.get(cur_crate, ())
 
     def _pick_overload(self, callee, cands, args, st):
         """Several bodies share a name (macro-generated impls at one span): choose by signature text."""
@@ -1129,14 +1176,14 @@ class Engine:
 
     def dynamic_dispatch(self, st, fr, callee, name, args):
         """`<T as Trait>::m(recv, ..)` with T a generic parameter: dispatch on the runtime receiver type."""
-        m = re.match(r'^<(&?(?:mut )?\w+) as (.*)>::(\w+)$', name)
+        m = re.match(r'^<(&?(?:mut )?[A-Z]\w*) as (.*)>::(\w+)$', name)
         if not m or not args:
             return None
         tn = self.type_name_of(st, args[0])
         if tn is None:
             return None
         tr = m.group(2).split('::')[-1]
-        cands = self._resolve_names(f'<{tn} as {m.group(2)}>::{m.group(3)}', fr.fn.crate)
+        cands = self._resolve_names(f'<{tn} as {m.group(2)}>::{m.group(3)}', fr.fn.crate, None)
         if not cands:
             return None
         if len(cands) == 1:
@@ -1171,8 +1218,12 @@ class Engine:
         if isinstance(fnv, Closure):
             f, a = fnv.fn, [fnv] + list(args)
         elif isinstance(fnv, FnItem):
-            cur = st.frames[-1].fn.crate if st.frames else None
+            cur = fnv.crate or (st.frames[-1].fn.crate if st.frames else None)
             f = self.resolve(fnv.path, cur, args, st)
+            if f is None and cur is None:
+                for cr in self.crates:
+                    f = self.resolve(fnv.path, cr, args, st)
+                    if f is not None: break
             a = list(args)
             if f is None:
                 # function item naming a modelled function: wrap through the model table
@@ -1237,6 +1288,30 @@ def type_last(x):
     if x.startswith('['):
         return x
     return x.split('::')[-1]
+
+
+def cmp_ty(t):
+    """canonical text of a type for impl matching: no module paths, lifetimes, spaces"""
+    t = re.sub(r"'\w+\s*", '', t)
+    t = re.sub(r'\b(?:[a-z_][a-z0-9_]*::)+', '', t)
+    t = re.sub(r'\bmut ', 'mut~', t)
+    return t.replace(' ', '').replace('mut~', 'mut ')
+
+
+def ty_unifies(pattern, actual):
+    """does `actual` match `pattern`, where single capital letters in pattern are type variables?"""
+    rx = re.sub(r'(?<![A-Za-z0-9_])[A-Z](?![A-Za-z0-9_])', '\x00', pattern)
+    rx = re.escape(rx).replace('\x00', '.+').replace('\\\x00', '.+')
+    rx = rx.replace(re.escape('\x00'), '.+')
+    try:
+        return re.fullmatch(rx, actual) is not None
+    except re.error:
+        return True
+
+
+def is_generic_ty(t):
+    """mentions a single-capital-letter (or short all-caps) type parameter"""
+    return bool(re.search(r'(?<![A-Za-z0-9_])[A-Z](?![A-Za-z0-9_])', t))
 
 
 def norm_ty(t):
